@@ -57,16 +57,18 @@ def gen(rng, k, flavour="mix"):
     first = True
     prev = None
     accepted = []
+    created = []
     main_socks = [1]
     for c in range(nconn + r.choice([0, 0, 1])):
         s = next_sock[0]; next_sock[0] += 1
         style = r.random()
         h = nh()
-        if style < 0.6:
+        if style < 0.6 or (style < 0.8 and not created):
             o = ["tcp_new %d 1" % s, "accept 1 %d %d %d" % (s, r.choice([0, 1]), h)]
-        elif style < 0.8 and accepted:
+            created.append(s)
+        elif style < 0.8:
             # re-accept into a socket used before (it gets closed by async_accept)
-            s = r.choice(accepted)
+            s = r.choice(created)
             o = ["accept 1 %d %d %d" % (s, r.choice([0, 1]), h)]
         else:
             o = ["accept2 1 %d %d" % (s, h)]
@@ -175,7 +177,7 @@ def gen(rng, k, flavour="mix"):
 
 def generate_flavour(flavour):
     def g(rng, tier):
-        n = 120 if tier == "quick" else 2500
+        n = 80 if tier == "quick" else 2500
         return [("t%d" % k, gen(rng, k, flavour)) for k in range(n)]
     return g
 
